@@ -42,6 +42,7 @@ open Gwb
 #print axioms C10_locality_apply
 #print axioms C10_locality_covers_culled
 #print axioms C10_fraction_in_unit_interval_false
+#print axioms C10_temperature_convex_basic
 #check @C10_resolve_own
 #check @C10_resolve_inherit_nearest
 #check @C10_resolve_nowhere
@@ -86,3 +87,4 @@ open Gwb
 #check @C10_fraction_in_unit_interval_false
 #check @C10_fraction_in_unit_interval_full
 #check @C10_geometry_convex_full
+#check @C10_temperature_convex_basic
